@@ -629,6 +629,12 @@ def _banner_worker(_):
     from cryptoparser.ssh.subprotocol import SshProtocolMessage
     softwares = ['OpenSSH_8.9', 'OpenSSH_for_Windows_8.1', 'dropbear_2019.78', 'dropbear', 'libssh_0.9.6', 'libssh-0.6.3',
                  'x', 'Cisco-1.25', 'ROSSSH', 'mod_sftp', 'a_b.c', 'IPSSH-6.9.0', 'cryptlib', 'MonacaSSH']
+    # the software version is an opaque string of printable US-ASCII (RFC 4253 s4.2): a vendor name in another letter
+    # case is another string and comes back as it was sent
+    for sw in list(softwares):
+        for f in (str.lower, str.upper, str.swapcase, str.title):
+            if f(sw) not in softwares:
+                softwares.append(f(sw))
     for proto in ('1.5', '1.99', '2.0'):
         for sw in softwares:
             for comment in (None, 'c', 'Ubuntu-3ubuntu0.1', 'two words', 'a  b'):
